@@ -237,6 +237,11 @@ class Engine:
     def heap_set(self, st: State, path: tuple, v: Val):
         ty = self.field_types.get(path)
         if ty is None:
+            # a field of the receiver the contract does not mention and the function has not read: writing it cannot
+            # change any value the contract speaks about (attributes are distinct locations); a later read still fails
+            if len(path) == 2 and path[0] == "self" and not any(p[:2] == path for p in self.field_types) and path not in st.heap:
+                self.rebound.append(f"write to the unmodelled field {'.'.join(path)} ignored")
+                return
             raise GenerationError(f"write to undeclared field {'.'.join(path)} in {self.c.qualname}")
         if isinstance(ty, TObj):
             if isinstance(v, ObjV) and v.path == path:
